@@ -266,13 +266,15 @@ def Folder.scanTick (F : Folder) : Folder :=
     else { F with scanCd := F.scanCd - 1 }
   else F
 
+/-- tail of a completing `_restoring_timestep`: `if self.deleted: self.deleted = False elif health in [CORRUPT, RESTORING]: GOOD` -/
+def Folder.restoreFinish (F : Folder) : Folder :=
+  if F.deleted then { F with deleted := false }
+  else if F.actual = .corrupt ∨ F.actual = .restoring then { F with actual := .good } else F
+
 /-- `Folder._restoring_timestep` -/
 def Folder.restoreTick (F : Folder) : Folder :=
   if F.restoreCd ≥ 0 then
-    if F.restoreCd - 1 = 0 then
-      let F1 := { F with restoreCd := 0, files := F.files.map File.restore }
-      if F1.deleted then { F1 with deleted := false }
-      else if F1.actual = .corrupt ∨ F1.actual = .restoring then { F1 with actual := .good } else F1
+    if F.restoreCd - 1 = 0 then { F with restoreCd := 0, files := F.files.map File.restore }.restoreFinish
     else { F with restoreCd := F.restoreCd - 1 }
   else F
 
@@ -284,8 +286,8 @@ def Folder.repair (F : Folder) : Folder :=
 
 /-- `Folder.restore`: un-delete; start the countdown unless one is running (then only logs). -/
 def Folder.restore (F : Folder) : Folder :=
-  let F1 := { F with deleted := false }
-  if F1.restoreCd ≤ 0 then { F1 with restoreCd := max F1.restoreDur 1, actual := .restoring } else F1
+  if F.restoreCd ≤ 0 then { F with deleted := false, restoreCd := max F.restoreDur 1, actual := .restoring }
+  else { F with deleted := false }
 
 def Folder.corrupt (F : Folder) : Folder :=
   if F.deleted then F else { F with files := F.files.map File.corrupt, actual := .corrupt }
